@@ -84,6 +84,15 @@ CATALOGUE = {
     'on-key': b'ON KEY(A%) GOSUB 0',
     'palette': b'PALETTE A%,B%',
     'noise': b'NOISE A%,B%,C%',
+    # an error in the middle of a string expression (a temporary is on the evaluation stack)
+    'temp-then-error': b'R$=("te"+"mp")+CHR$(A%)',
+    'temp-then-error-2': b'R$=LEFT$("ab"+"cd",A% AND 7)+CHR$(B%)',
+    # string functions given a temporary, over their early-return and error paths
+    'temp-left-right': b'R$=LEFT$("ab"+"cd",A% AND 7)+RIGHT$("xy"+"z",B% AND 7)',
+    'temp-left-any': b'R$=LEFT$("ab"+"cd",A%)',
+    'temp-mid': b'R$=MID$("ab"+"cd",A% AND 15,B% AND 7)',
+    'temp-instr': b'R%=INSTR(A% AND 7,"ab"+"cd","c")+INSTR("ab"+"cd","x")',
+    'temp-string': b'R$=STRING$(A% AND 3,B%)+STRING$(2,"q"+"r")',
     # a collection inside the first string expression of a session (no permanent string exists yet)
     'fre-in-first-string': b'R$=STRING$(A% AND 3,"a")+MID$("q",1+0*FRE(""))',
     'fre-in-first-string-2': b'R$=STRING$(A% AND 3,"a")+STRING$(B% AND 3,"b"): R%=FRE(R$)',
@@ -118,6 +127,10 @@ def body(h):
             session.poke_int(h, impl, n, raws[n])
     res = h.call(impl.execute, stmt)
     h.require('only-basic-errors-escape', res[0] == 'ok', res)
+    # whatever the statement did (or failed at), the interpreter must be left in a state in which the
+    # next direct line -- here one that forces a string-space collection -- runs normally
+    post = h.call(impl.execute, b'R%=FRE("")')
+    h.require('next-line-with-a-collection-runs', post[0] == 'ok', post)
     err = impl.interpreter.error_num
     return [res[0], res[1] if res[0] != 'ok' else None]
 
